@@ -389,7 +389,12 @@ class C12(Check):
             ctx.violation(f"{callsite}/shape/{form}", f"{head}: output has {out.size} entries, input {x_in.size}")
             return True
         if out.shape != x_in.shape:
-            ctx.count(f"shape_changed_not_demanded:{callsite}:{form}")
+            if x_in.ndim == 2:
+                # a matrix is a family of columns: the answer has to come back column for column (an (n,1) matrix returned as (n,)
+                # broadcasts to (n,n) in the caller's next operation)
+                ctx.violation(f"{callsite}/shape/{form}", f"{head}: output shape {out.shape}, input shape {x_in.shape}")
+                return True
+            ctx.count(f"shape_changed_not_demanded:{callsite}:{form}")  # 1-D input returned as a column: same point, other container
             out = out.reshape(x_in.shape)
         bad = False
         any_moved = False
@@ -452,6 +457,8 @@ class C12(Check):
             v1 = np.array(vals, dtype=np.float64) * s
             m2 = np.stack([v1, np.array(w, dtype=np.float64) * s], axis=1).copy()
             forms = [("mat", m2)] if d["layout"] == "mat" else [("1d", v1), ("mat", m2)]
+            if d["layout"] != "mat" and float(case["scale"]) == 1.0:
+                forms.append(("col1", v1.reshape(-1, 1).copy()))  # a matrix with exactly one column (as a rank-1 factor is)
         ctx.evaluations -= 1  # begin() counted the case; every library call below is counted instead
         for form, x_in in forms:
             if op in ("hard_sparsity", "normalized_sparsity"):
